@@ -214,7 +214,20 @@ def run(ctx, rep):
                 continue    # parse_at failed: `.ok()` (or the equivalent match) ends the iteration
             if t.op == "agg" and t.args[3] == "None":
                 e = an2.truth(st.facts, T.bin("Eq", T.length(f("data")), T.const("usize", 0), "usize"))
-                rep.require(e is True, "iterator", "next:none", wh(fn2["span"]), "early None only for empty data", "NoteIterator::next returns None early under another condition")
+                if e is not True:
+                    # ... or for a cursor at / past the end of the data: the header read at the cursor fails there without moving it
+                    # (C04), so the parse would end the iteration the same way
+                    from ..prover import Prover as _Pv
+                    ln_, off_ = T.length(f("data")), f("offset")
+                    at_end = _Pv(an2).le(ln_, off_, st.facts)
+                    for g in st.facts:
+                        if not at_end and g[0] in ("true", "eq") and isinstance(g[1], Term):
+                            x = g[1].args[1] if (g[0] == "true" and g[1].op == "bin" and g[1].args[0] == "Eq" and g[1].args[2].op == "const" and g[1].args[2].args[1] == 0) else \
+                                (g[1] if (g[0] == "eq" and g[2] == 0) else None)
+                            if x is not None and x.op == "call" and x.args[0] == "usize::saturating_sub" and x.args[2][0] is ln_ and x.args[2][1] is off_:
+                                at_end = True
+                    e = True if at_end else e
+                rep.require(e is True, "iterator", "next:none", wh(fn2["span"]), "early None only for empty data / a cursor at the end", "NoteIterator::next returns None early under another condition")
             elif t.op == "agg" and t.args[3] == "Some" and t.args[4][0] is T.payload(R, "Ok") and ("var", R, "Ok") in st.facts:
                 okp += 1
             else:
@@ -266,6 +279,10 @@ def _name_term(an, calls, st=None, name_norm=None):
         for f in sorted(st.facts, key=repr):
             if f[0] == "eq" and isinstance(f[1], type(T.param(1))) and f[1].op == "len" and norm(f[1].args[0]) == name_norm:
                 return f[1].args[0]
+            # (the length of a successful range view folds to end - start: the slice is then found through a byte test on it)
+            if f[0] == "eq" and isinstance(f[1], type(T.param(1))) and f[1].op == "proj" and f[1].args[1][0] in ("cidx", "idx") \
+                    and f[1].args[0].op == "deref" and norm(f[1].args[0].args[0]) == name_norm:
+                return f[1].args[0].args[0]
     for c in calls:
         if c.declared_norm == "[T]::get" or c.callee_qual.endswith("ReadBytesExt<'data>>::get_bytes"):
             if c.args[0] is T.param(5):
